@@ -157,7 +157,7 @@ def _pickle_case(rng):
 
 def generate(ctx):
     rng = ctx.rng
-    for _ in range(ctx.n(60000, 1500000)):
+    for _ in range(ctx.n(60000, 900000)):
         r = rng.random()
         if r < 0.62:
             yield _delim_case(rng)
